@@ -6,6 +6,7 @@ from .client_family import TMPL
 Ca = lambda i: dict(k='call', id=i)
 No = dict(k='note', id=0)
 Iv = lambda i: dict(k='inv', id=i)
+Vo = dict(k='void', id=0)   # {"jsonrpc":"2.0"}: no id, no method
 BODIES = {'bridge': {'h1': [Ca(1)], 'h2': [Ca(1), No, Ca(2)], 'h3': [Ca(2), Iv(3), Ca(1)]},
           'bridge2': {'h1': [Ca(1), Ca(2)], 'h2': [Ca(2), Ca(1)]},
           'bridge3': {'h1': [No, Iv(1)], 'h2': [Iv(2)], 'h3': [No], 'h4': [Iv(0), No, Iv(3)], 'h5': [No, No, Ca(1)]}}
@@ -59,6 +60,10 @@ def directed(rng):
                     n += 1; h = 'b%d' % n
                     mem = [Ca(10 + i) if k == 'c' else (No if k == 'n' else Iv(20 + i if (i + n) % 2 else 0)) for i, k in enumerate(comp)]
                     add('body-%s' % ''.join(comp), [http(h, mem), D] + [hret('%s.%d' % (h, i + 1)) for i, k in enumerate(comp) if k != 'i'] + [D])
+        # a member that is neither flagged invalid nor anything a handler could run (no id, no method): whatever becomes of it,
+        # the members next to it are served - handlers run, calls answered under their ids
+        add('void-member-%d' % v, [http('h1', [Vo, Ca(1)] if v == 0 else ([Ca(1), Vo, No] if v == 1 else [Vo, No, Ca(2), Ca(3)])), D] + [hret('h1.%d' % i) for i in ([2], [1, 3], [2, 3, 4])[v]] + [D,
+                                  http('h2', [Ca(4)]), D, hret('h2.1'), D])
         add('dup-in-body-%d' % v, [http('h1', [Ca(1), Ca(1)]), D, hret('h1.1'), hret('h1.2'), D])
         add('refused-%d' % v, [http('h1', [Ca(1)], 'notpost'), http('h2', [Ca(1)], 'badtype'), http('h3', [Ca(2)], 'badcharset'), http('h4', [Ca(1)], 'garbage'), http('h5', [], 'emptyarr'), http('h7', [Ca(1)], 'trailing'), http('h8', [No, Ca(2)], 'trailing'), http('h9', [No], 'trailing'),
                                http('h6', [Ca(1)]), D, hret('h6.1'), D])
